@@ -10,6 +10,7 @@ import (
 	"net/url"
 	"sort"
 	"strings"
+	gosync "sync"
 	"testing"
 
 	"oras.land/oras-go/v2/registry/remote/auth"
@@ -54,6 +55,7 @@ type issued struct {
 }
 
 type world struct {
+	mu        gosync.Mutex
 	regs      map[string]*regSpec
 	realmOf   map[string]string // realm host+path -> registry host
 	tokens    map[string]issued
@@ -169,6 +171,8 @@ func (w *world) RoundTrip(req *http.Request) (*http.Response, error) {
 		b, _ := io.ReadAll(req.Body)
 		body = string(b)
 	}
+	w.mu.Lock() // real lock: only matters in the free-running race pass
+	defer w.mu.Unlock()
 	host := req.URL.Host
 	// which registry does this destination belong to?
 	owner := ""
@@ -259,7 +263,9 @@ func (w *world) realm(req *http.Request, r *regSpec, body string) *http.Response
 	w.realmHits++
 	if w.cancelOn != nil && w.realmHits == 1 {
 		w.cancelOn()
+		w.mu.Unlock()
 		vs.Pt("realm after cancel")
+		w.mu.Lock()
 		if err := req.Context().Err(); err != nil {
 			// the transport of a cancelled request fails with the context's error
 			return nil
